@@ -111,7 +111,7 @@ class Gen:
         if v.dtype.kind == "f":
             if not np.all(np.isfinite(v)):
                 return False
-            lim = 2.0**40 if self.exact else 1e6
+            lim = 2.0**40 if self.exact else (1e6 if self.dtypes == ["f8"] else 64.0)
             if v.size and np.max(np.abs(v.astype(np.float64))) > lim:
                 return False
         return True
